@@ -362,7 +362,9 @@ def G3_sources(ctx):
             c = t['callee']
             g = t.get('generic', '')
             if re.search(r'::(iter|into_iter|keys|values|drain|iter_mut|values_mut)$', c) and re.search(r'(HashMap|HashSet|DashMap|AHashMap|AHashSet|hash_map|hash_set|AddressMap|hashbrown)', c + g):
-                sites[re.sub(r'::\{closure#\d+\}', '', b['fn']).split('::')[-1] + '@' + b['file'].split('/')[-1]] += 1
+                # a helper extracted after the pinned commit is accounted to the function(s) it was taken from
+                for ob in sorted(facts.owner_bodies(b['fn'])):
+                    sites[re.sub(r'::\{closure#\d+\}', '', ob).split('::')[-1] + '@' + facts.by[ob]['file'].split('/')[-1]] += 1
     table = {
         'execute_task@scheduler.rs': 'new write set: ∃-test; old write set: independent removals',
         'validate@scheduler.rs': 'read set: conflict is a disjunction, dependency a max',
